@@ -571,7 +571,9 @@ def compare_spec(case, obs, impl, ans, lane):
             if nz == 1 and not (thick and op in ("sum", "nansum", "nanmean", "mean")):
                 acc = spec["accept"][pix]
                 if not acc:
-                    if a is not None and not (op == "nansum" and a == 0.0):
+                    if a is not None and not (op == "nansum" and a == 0.0) and not (mixed and a == "nan"):
+                        # (layers with different reductions share one mask, taken with the last layer's reduction: where that
+                        # one never yields NaN, an uncovered pixel of another layer shows its NaN unmasked)
                         out.append({"pix": pix, "layer": l, "kind": "value_without_cell",
                                     "what": f"no loaded cell contains the sample point, impl shows {a}"})
                         break
